@@ -2674,6 +2674,16 @@ def check_C19(tier):
         return (kind, src, target, flags, rc, before, after)
     with ThreadPoolExecutor(max_workers=16) as ex:
         results = list(ex.map(one, jobs))
+    # where the epilogue of a successfully processed text begins is decided by the Lean front-end model
+    # (a `%%` inside a comment, string, action or prologue is not a section mark)
+    ok_srcs = sorted(set(src for (kind, src, target, flags, rc, before, after) in results if rc == 0))
+    frec = run_front([{"id": "e%d" % i, "src": t} for i, t in enumerate(ok_srcs)]) if ok_srcs else {}
+    epilogue_of = {}
+    for i, t in enumerate(ok_srcs):
+        for l in frec.get("e%d" % i, {}).get("model", []):
+            if l.startswith("M AST rest "):
+                epilogue_of[t] = unq(l[len("M AST rest "):])
+    epi_unknown = 0
     for (kind, src, target, flags, rc, before, after) in results:
         runs += 1
         cls = "fail" if rc != 0 else "ok"
@@ -2686,11 +2696,15 @@ def check_C19(tier):
                                               "file_before_len": len(before), "file_after_len": None if after is None else len(after)}})
         else:
             # success: the file is complete, ending with the epilogue
-            epi = src.split("%%")[-1] if src.count("%%") >= 2 else ""
+            epi = epilogue_of.get(src)
+            if epi is None:
+                epi_unknown += 1       # the model does not read this text (non-ASCII, or it refuses it): not judged
+                continue
             if after is None or not after.decode("utf-8", "replace").endswith(epi):
                 violations.append({"key": common.finding_key({"src": src, "target": target, "tail": True}),
                                    "what": "successful generation whose output does not end with the epilogue",
                                    "replay": {"property": pid, "grammar_file": src, "target": target, "flags": flags}})
+    hist["successes whose epilogue the front-end model could not give (not judged)"] = epi_unknown
     samples.append({"kind": "undefined symbol", "grammar_file": C19_FAILURES["undefined symbol"], "outcomes": [r[4] for r in results if r[0] == "undefined symbol"]})
     cov = {"evaluations": runs, "distinct_nontrivial": len(failures),
            "rule": "every kind of input-caused failure (lexical error, unterminated comment/brace, syntax errors, undefined symbol, nonterminal without rule, unproductive nonterminal, $n out of range, $0, truncated, empty) plus prefixes/edits of valid files, x {go, go -o -u, typescript}, each with a pre-existing output file; after a non-zero exit the file must be byte-identical; after success it must end with the epilogue; distinct = input texts",
